@@ -1377,6 +1377,7 @@ async fn run_case(seed: u64, i: u64, verbose: bool, inter: u64, plain: bool, out
     };
     let mut dk_seq: Vec<String> = Vec::new();
     let mut s_before = KV::new();
+    let mut s_after_opt: Option<KV> = None;
     if let Ok(rb_) = &rec_b {
         s_before = rb_.fold();
         out.impl_checks += 1;
@@ -1416,6 +1417,7 @@ async fn run_case(seed: u64, i: u64, verbose: bool, inter: u64, plain: bool, out
                     }
                     if all {
                         out.count("state:changed(known C13-tombstone-cutoff)");
+                        out.count(&format!("state:changed(known C13-tombstone-cutoff):{}", lay.now_class));
                         out.known(K_CUTOFF, i, detail);
                     } else {
                         out.count(&format!("violation:{}", V_STATE));
@@ -1428,6 +1430,7 @@ async fn run_case(seed: u64, i: u64, verbose: bool, inter: u64, plain: bool, out
                     }
                     dk_seq = dk;
                 }
+                s_after_opt = Some(s_after);
             }
         }
     }
@@ -1595,14 +1598,34 @@ async fn run_case(seed: u64, i: u64, verbose: bool, inter: u64, plain: bool, out
                             }
                         }
                     } else {
-                        // the flush started after the compaction's manifest swap: a dropped
-                        // tombstone whose key the flushed segment writes with an older stamp
-                        let inp = inputs_of(&map0, &run.cres.removed());
-                        if modulo && diff.iter().all(|k| inp.in_cutoff_class(k, lay.cutoff(), &lay.ck, &lay.flush_deltas) && s.get(k).is_some()) {
-                            explained = true;
-                            out.count("inter:outside-window:tombstone-dropped-then-older-value-flushed(known C13-tombstone-cutoff)");
-                            out.known(K_CUTOFF, i, detail(json!({"note": "the compaction dropped the tombstone; the segment flushed afterwards holds an older value of the key", "deltas_of_these_keys": inp.json_for(&diff)})));
-                            verdict = format!("KNOWN {} (a segment flushed after the compaction holds an older value; keys {:?})", K_CUTOFF, diff);
+                        // the flush started after the compaction's manifest swap: the compaction
+                        // ran exactly as in the sequential run.  If the recovered state is the
+                        // state recovered after the sequential compaction merged with the flushed
+                        // deltas, the interleaving is innocent and the difference is the
+                        // compaction's own (a dropped tombstone, or a change of a dead key's
+                        // metadata that is invisible modulo dead keys until the key is written again)
+                        let same_compaction = run.cres.removed() == removed && run.cres.created() == cres.created();
+                        if let (Some(sa), true) = (&s_after_opt, same_compaction) {
+                            let expect_b = fold_more(sa, &lay.flush_deltas);
+                            let innocent = diff.iter().all(|k| s.get(k).map(obs) == expect_b.get(k).map(obs));
+                            if innocent {
+                                explained = true;
+                                let inp = inputs_of(&map0, &run.cres.removed());
+                                let all = modulo && diff.iter().all(|k| inp.in_cutoff_class(k, lay.cutoff(), &lay.ck, &lay.flush_deltas));
+                                if all {
+                                    out.count("inter:outside-window:tombstone-dropped-then-key-flushed(known C13-tombstone-cutoff)");
+                                    out.known(K_CUTOFF, i, detail(json!({"note": "the compaction dropped the tombstone; the segment flushed after the manifest swap holds a delta of the same key, which now merges without the tombstone", "deltas_of_these_keys": inp.json_for(&diff)})));
+                                    verdict = format!("KNOWN {} (a segment flushed after the compaction holds a delta of the key; keys {:?})", K_CUTOFF, diff);
+                                } else {
+                                    out.count("inter:outside-window:sequential-then-flush(violation of the sequential property)");
+                                    out.count(&format!("violation:{}", V_STATE));
+                                    out.violation(i, V_STATE, detail(json!({"note": "the flush started after the compaction's manifest swap and the result is the state after the sequential compaction merged with the flushed deltas: the compaction alone changed the state of these keys (dead keys compare equal modulo dead keys until they are written again)",
+                                        "state_after_sequential_compaction": diff.iter().map(|k| (k.clone(), show(sa, k))).collect::<BTreeMap<_, _>>(),
+                                        "state_before": diff.iter().map(|k| (k.clone(), show(&s_before, k))).collect::<BTreeMap<_, _>>(),
+                                        "deltas_of_these_keys": inp.json_for(&diff)})));
+                                    verdict = format!("VIOLATION of the sequential property revealed by the later flush (keys {:?}; the compaction alone changed them)", diff);
+                                }
+                            }
                         }
                     }
                 }
